@@ -19,7 +19,8 @@ reg("C01",
     bounds=_PROG + "; rank dependencies between ANY two statements (also self, also closing a cycle with data edges or with each other), additionally: two rank "
            "dependencies (all ordered pairs of pairs for NNODES<=4, chains a2->a1->b1 for NNODES=5) / a push source declared last / a pair node whose second input is declared rank_dependency=false while its source is rank-constrained after it "
            "(the shared-output relay pattern of graph_wiring.h). No execution: the compiled GraphBuilder (and the nested child's) is inspected",
-    outside="more than NNODES statements; more than one extra per program (except the two rank dependencies); TSB/TSD structural sources; service/adaptor rank contracts "
+    outside="more than NNODES statements; more than one extra per program (except the two rank dependencies); TSD structural sources (TSB and partial TSB/TSL structural "
+            "sources: C01_struct_rank / C01_struct_eval); service/adaptor rank contracts "
             "(apply_service_rank_dependencies, same-cycle pair validation beyond the plain rank dependency); programs only expressible through the operator layer; "
             "map_/switch_/reduce children",
     assumptions=["node identity in the compiled graph is read back from the per-node 'id' scalar (NodeBuilder::scalars); runtime nodes without one (feedback source/sink, "
@@ -54,6 +55,50 @@ reg("C01",
            "run by the simulation executor for 3 source cycles (+2 trailing), all tick patterns, payloads symbolic in [-1000,1000]",
     outside="as C01_eval; additionally: coincident ticks of independent sources at 5 statements",
     assumptions=["same harness source as C01_eval with larger program size (thorough tier only)"],
+    )
+
+_SPROG = ("base program of NNODES statements (node 0 a scripted source, every further statement a source (at most 2 in all) or add1 of any earlier statement) followed by ONE "
+          "consumer with a bundle / fixed-list input wired from a PARTIAL structural source: shapes TSB{a,b} with the plain input x declared before it / after it / absent, "
+          "TSL<TS,3> (+x), nested TSB{a, l: TSL<TS,2>, b} (+x); every leaf child is a null source or the port of a base statement (TSB{a,b}: any statement; larger shapes: "
+          "first or last statement), all combinations incl. all-null, null before / between / after wired children, one producer in two children; for the nested shape the "
+          "inner list is either a structural child with its own null leaves or ONE null source; x among the first 2 statements.  Initializer forms: positional brace list "
+          "with explicit WiringPortRef::null_source children / named initializer listing only the wired fields, last field first (graph_wiring.h fills the gaps) / "
+          "delayed_binding placeholders (TS<Int> for x, the structural schema for the bundle or list) from which the consumer and its reader D=add1(consumer) are wired BEFORE "
+          "every producer and which are bound afterwards to the partial structural source / the partial structural source passed as an argument of a nested child graph "
+          "(hk_nested.h, single_nested_graph_node) whose only node is the consumer, read by D=add1(nested)")
+_SREACH = ["end", "null_child_before_wired_child", "null_child_before_child_from_compute_node", "consumer_would_precede_producer_without_edge_after_null",
+           "named_partial_initializer_unlucky_order", "tsl_first_element_null_unlucky_order", "delayed_leaf_bound_to_null_before_wired_leaf",
+           "nested_owner_would_precede_producer", "whole_inner_list_null_before_wired_field", "nested_inner_null_before_wired_element", "all_children_null",
+           "wired_child_before_null_child", "same_producer_in_two_children", "partial_structural_source_as_nested_argument"]
+
+reg("C01",
+    name="C01_struct_rank", src="harness/C01_struct.cpp",
+    anchor_files=_ANCH,
+    quick=dict(defs=dict(NNODES=3, MAXSRC=2, RUN=0), symx=dict(shards=16, **{"max-wall": 900})),
+    thorough=dict(defs=dict(NNODES=4, MAXSRC=2, RUN=0, XCH=3), symx=dict(shards=16, **{"max-wall": 3000, "shard-depth": 8})),
+    reach=_SREACH + ["cycle_closed_by_child_after_null_rejected"],
+    bounds=_SPROG + "; in the delayed form a child may also be bound to D, which closes a cycle through the partial structural source (must be rejected at finish).  No execution: "
+           "the compiled GraphBuilder (and the nested child's) is inspected.  The label consumer_would_precede_producer_without_edge_after_null is decided by a harness-side "
+           "Kahn ranking (ties by statement order) of the program with the edges of children that follow a null sibling removed",
+    outside="more than NNODES base statements; 2-input base nodes, rank dependencies, feedback and REF extras combined with partial structural sources (C01_rank has them with fully "
+            "wired TSL sources); REF<TSB>/REF<TSL> inputs (structural_ref node); TSD / dynamic TSL sources; partial structural OUTPUT of a sub-graph (structural_boundary_ordinal); "
+            "nesting deeper than one level; map_/switch_/reduce children",
+    assumptions=["node identity in the compiled graph is read back from the per-node 'id' scalar; the nested owner is identified by its schema name",
+                 "the nested form is wired through hk/hk_nested.h, a mirror of subgraph_wiring.h nested_<G> (whose template body crashes clang 14), using the real boundary_shape"],
+    )
+
+reg("C01",
+    name="C01_struct_eval", src="harness/C01_struct.cpp",
+    anchor_files=_ANCH,
+    quick=dict(defs=dict(NNODES=3, MAXSRC=2, NCYC=2, RUN=1), symx=dict(shards=16, **{"max-wall": 900})),
+    thorough=dict(defs=dict(NNODES=3, MAXSRC=2, NCYC=3, RUN=1, XCH=3), symx=dict(shards=16, **{"max-wall": 3000, "shard-depth": 8})),
+    reach=_SREACH + ["consumer_and_compute_producer_behind_null_ran_in_one_cycle", "unlucky_order_ran", "several_inputs_ticked_in_one_cycle", "nested_consumer_evaluated"],
+    bounds=_SPROG + " (acyclic only; TSB{a,b} shapes are run in the positional and delayed forms, the nested shape in the named form - positional and named forms compile to the "
+           "same builder, which C01_struct_rank checks); the static oracle of C01_struct_rank is repeated, then the graph is run by the simulation executor for NCYC source "
+           "cycles (+2 trailing), every source ticks or not in every cycle (all patterns enumerated), payloads symbolic in [-1000,1000]",
+    outside="as C01_struct_rank; more than NCYC cycles; whether the consumer runs at all when only a child behind a null sibling ticked (C03); push sources at run time",
+    assumptions=["the producer relation used by the order oracle is the harness's own description of the program it wired (who reads whom), not the compiled edge list",
+                 "the consumer's user code indexes the inner list of the nested shape only when that list is valid (a wholly unwired inner list throws on indexing - notes/C01.md)"],
     )
 
 META = dict(
